@@ -163,6 +163,36 @@ pub trait Prop: Sync {
     }
 }
 
+/// `Prop::check` with a safety net: the oracles call into the real code *after* the run as well
+/// (Solution::sol, sol_many, interpolants). A panic there must not take the harness down: if it
+/// comes from the library it is a violation for the checks that own "never panics" / "sol
+/// succeeds" (C04, C06) and a blocked case for the others; a panic in the harness's own code is a
+/// harness error (exit 2).
+pub fn guarded_check(prop: &dyn Prop, sc: &Scenario, cov: &mut Cov) -> Vec<Violation> {
+    let r = std::panic::catch_unwind(std::panic::AssertUnwindSafe(|| prop.check(sc, cov)));
+    match r {
+        Ok(v) => v,
+        Err(_) => {
+            ivp::verif::reset(u64::MAX);
+            let msg = crate::run::take_last_panic().unwrap_or_else(|| "panic without message".to_string());
+            let in_library = msg.contains("/repo/") || msg.contains("library/core") || msg.contains("library/alloc") || msg.contains("library/std");
+            let in_harness = msg.contains("src/props/") || msg.contains("src/core.rs") || msg.contains("src/gen.rs") || msg.contains("src/protocol.rs") || msg.contains("src/env.rs") || msg.contains("src/run.rs");
+            if in_harness && !msg.contains("/repo/") {
+                eprintln!("harness error: panic in the harness itself: {msg} :: {}", sc.summary());
+                std::process::exit(2);
+            }
+            let _ = in_library;
+            if prop.id() == "C06" || prop.id() == "C04" {
+                vec![viol(prop.id(), "panic_after_run", format!("the library panicked while the result was being queried (sol / sol_many / interpolant): {msg}"))]
+            } else {
+                cov.blocked += 1;
+                cov.bump("blocked.library_panic_after_run");
+                vec![]
+            }
+        }
+    }
+}
+
 pub struct Found {
     pub item: u64,
     pub index: usize,
@@ -190,6 +220,15 @@ pub fn run_campaign(prop: &dyn Prop, tier: Tier, seed: u64, workers: usize) -> C
                 if i >= n {
                     break;
                 }
+                // On a tree where runs hang, a campaign that does not own termination (everything
+                // but C04) gives up early instead of burning a watchdog budget per run; what it
+                // skipped is reported in the evidence (`aborted_items`). Never happens on a healthy tree.
+                if prop.id() != "C04" && crate::run::HANGS.load(Ordering::Relaxed) > 200 {
+                    let mut cov = Cov::default();
+                    cov.bump("aborted_items_after_200_hung_runs");
+                    *slots[i as usize].lock().unwrap() = Some((cov, Vec::new(), 0));
+                    continue;
+                }
                 let scs = prop.expand(i, tier, seed);
                 let mut cov = Cov::default();
                 let mut found = Vec::new();
@@ -197,7 +236,7 @@ pub fn run_campaign(prop: &dyn Prop, tier: Tier, seed: u64, workers: usize) -> C
                 for (j, sc) in scs.iter().enumerate() {
                     cov.cases += 1;
                     let t_before = cov.ticks;
-                    let v = prop.check(sc, &mut cov);
+                    let v = guarded_check(prop, sc, &mut cov);
                     if std::env::var_os("VERIF_DEBUG_SLOW").is_some() && cov.ticks - t_before > 1_000_000 {
                         eprintln!("slow case item={} idx={} ticks={} :: {}", i, j, cov.ticks - t_before, sc.summary());
                     }
